@@ -493,3 +493,91 @@ Proof.
   intros Hp Hb Hs. unfold location_prefix. rewrite Hp. f_equal. apply hex_escape_id.
   destruct (go_parse_bytes src u Hp Hb) as [B1 B2]. apply authority_string_ascii; assumption.
 Qed.
+
+(* ================================================================== the request on the wire *)
+(* Which of several presented values is read is decided by ParseForm's precedence, and it is the
+   SAME value for the redirect gate, the signature gate and the handler. *)
+Lemma values_of_app k a b : values_of k (a ++ b) = values_of k a ++ values_of k b.
+Proof. unfold values_of. rewrite filter_app, map_app. reflexivity. Qed.
+
+Lemma get_first_in k pairs : get_first k pairs <> [] -> In (get_first k pairs) (values_of k pairs).
+Proof.
+  induction pairs as [|[a b] r IH]; intros H; [exfalso; apply H; reflexivity|].
+  cbn [get_first] in *. unfold values_of. cbn [filter fst]. destruct (str_eqb a k).
+  - left. reflexivity.
+  - apply IH. exact H.
+Qed.
+
+Lemma form_get_presented w k : form_get w k <> [] -> In (form_get w k) (presented w k).
+Proof.
+  intros H. unfold form_get in *. apply get_first_in in H. unfold presented.
+  set (v := get_first k (form_pairs w)) in *. clearbody v. unfold form_pairs in H.
+  rewrite values_of_app in *. apply in_or_app. apply in_app_or in H as [H|H]; [|right; exact H].
+  destruct (body_read w); [left; exact H | destruct H].
+Qed.
+
+Lemma query_get_presented w k : query_get w k <> [] -> In (query_get w k) (presented w k).
+Proof.
+  intros H. unfold query_get in *. apply get_first_in in H. unfold presented. rewrite values_of_app.
+  apply in_or_app. right. exact H.
+Qed.
+
+(* a code redirect or a sign-out redirect goes to exactly the value Form.Get returns — the first
+   body value when the body is read (POST, urlencoded), else the first query value — and both
+   gates judged that very value together with the sig / ts values read the same way *)
+Theorem wire_redirect_reads_form c now ep w src hw :
+  serve_wire c now ep w = ORedirect src hw -> (ep = EpSignIn \/ ep = EpSignOut) ->
+  src = form_get w k_redirect_uri /\
+  valid_redirect_uri src (root_domains c) = true /\
+  valid_signature now src (sig_lookup (w_sigtab w) (form_get w k_sig)) (form_get w k_ts) (c_secret c) = true.
+Proof.
+  unfold serve_wire. intros H [->| ->].
+  - assert (hw = WithCode).
+    { destruct hw; [|reflexivity]. exfalso. unfold serve, gate_methods, gate_client_id, gate_redirect_uri, gate_signature,
+        sign_in_handler, proxy_oauth_redirect in H. repeat gate_step H; inversion H. }
+    subst hw. destruct (code_gated _ _ _ _ _ H) as [_ [Hu [_ [_ [Hv Hs]]]]].
+    cbn [request_of_wire q_uri q_sig q_ts] in Hu, Hs. subst src. auto.
+  - destruct (sign_out_gated _ _ _ _ _ H) as [Hu [_ [Hv Hs]]].
+    cbn [request_of_wire q_uri q_sig q_ts] in Hu, Hs. subst src. auto.
+Qed.
+
+(* the value read is one the client presented, and so are the sig and ts that vouched for it *)
+Theorem wire_redirect_presented c now ep w src hw :
+  serve_wire c now ep w = ORedirect src hw -> (ep = EpSignIn \/ ep = EpSignOut) ->
+  In src (presented w k_redirect_uri) /\
+  exists s t, In s (presented w k_sig) /\ In t (presented w k_ts) /\
+              valid_signature now src (sig_lookup (w_sigtab w) s) t (c_secret c) = true.
+Proof.
+  intros H Hep. destruct (wire_redirect_reads_form _ _ _ _ _ _ H Hep) as [-> [Hv Hs]].
+  pose proof (valid_signature_sound _ _ _ _ _ Hs) as [Hu [Ht [_ [_ [t [_ [Hsg _]]]]]]].
+  split; [apply form_get_presented; exact Hu|].
+  exists (form_get w k_sig), (form_get w k_ts). split; [|split; [apply form_get_presented; exact Ht | exact Hs]].
+  apply form_get_presented. intros E. rewrite E in Hsg. discriminate Hsg.
+Qed.
+
+Theorem wire_callback_presented c now w src hw :
+  serve_wire c now EpCallback w = ORedirect src hw ->
+  hw = Verbatim /\ valid_redirect_uri src (root_domains c) = true /\
+  exists st n, In st (presented w k_state) /\ state_lookup (w_statetab w) st = StPair n src.
+Proof.
+  unfold serve_wire. intros H. destruct (callback_gated _ _ _ _ _ H) as [-> [[n [Hst _]] Hv]].
+  split; [reflexivity|]. split; [exact Hv|]. cbn [request_of_wire q_cb_state] in Hst.
+  exists (form_get w k_state), n. split; [|exact Hst].
+  apply form_get_presented. intros E. rewrite E in Hst. discriminate Hst.
+Qed.
+
+Theorem wire_idp_presented c now ep w a :
+  serve_wire c now ep w = OIdP a ->
+  ep = EpStart /\
+  exists x, In x (presented w k_redirect_uri) /\
+    let i := start_lookup (w_starttab w) x in
+    si_outer i = Some a /\ valid_redirect_uri a (root_domains c) = true /\
+    exists b, si_nested i = Some b /\ valid_redirect_uri b (root_domains c) = true /\
+              valid_signature now b (si_sig i) (si_ts i) (c_secret c) = true.
+Proof.
+  unfold serve_wire. intros H. destruct (idp_start_gated _ _ _ _ _ H) as [-> [Ho [Hv [b [Hb [Hvb Hs]]]]]].
+  split; [reflexivity|]. cbn [request_of_wire q_outer q_nested q_sig q_ts] in Ho, Hb, Hs.
+  exists (query_get w k_redirect_uri). split.
+  - apply query_get_presented. intros E. rewrite E in Ho. cbn in Ho. inversion Ho; subst a. discriminate Hv.
+  - cbv zeta. split; [exact Ho|]. split; [exact Hv|]. exists b. auto.
+Qed.
